@@ -210,6 +210,20 @@ def from_nested(data, dtype=None):
     raise EngineError(f"np.array of {type(data).__name__}")
 
 
+def _mentions_index(dd, q):
+    import z3
+    qid, seen, stack = q.t.get_id(), set(), [sv.znum(dd)]
+    while stack:
+        e = stack.pop()
+        if e.get_id() in seen:
+            continue
+        seen.add(e.get_id())
+        if e.get_id() == qid:
+            return True
+        stack.extend(e.children())
+    return False
+
+
 def _pick_lazy(readers, idx):
     vals = [r(idx[1:]) for r in readers]
     return _pick(vals, idx[0])
